@@ -6,11 +6,42 @@
 -/
 import AgeModel.Exec.KeyFileExec
 import AgeModel.Extracted.Consts
+import Proofs.GoTieKeyFile
 namespace AgeModel
 namespace Tie.C18
 
 theorem identities_limit_tie : Exec.KeyFile.limit = Extracted.privateKeySizeLimit := by decide
 theorem recipients_limit_tie : Exec.KeyFile.limit = Extracted.recipientFileSizeLimit := by decide
+
+/-! ## The code itself (DESIGN.md §5.3)
+
+`age.ParseIdentities` and `age.ParseRecipients` (parse.go) are TRANSLATED from the
+source on every run, with the single-line parser kept abstract (a parameter, as in
+the model). For EVERY file content and EVERY single-line parser that returns, they
+compute the file-level model of AgeModel/KeyFile.lean — the keys in file order, or
+the error with the 1-based number of the FIRST offending line (an argument of the
+error's fmt.Errorf call), or "scanner error" / "no keys". Every theorem of Props/C18
+about `KeyFile.parseIdentities` / `parseRecipients` (keyfile_exact, keyfile_no_skip,
+keyfile_first_error, …) is thereby a theorem about these two functions as they stand
+in the source. A `continue` on a malformed line, a line counter that skips comments,
+a swallowed scanner error each break these. -/
+
+theorem parseIdentities_tie {κ : Type} (P : Bytes → Go.M (κ × Option Go.Err))
+    (hP : ∀ l, ∃ r, P l = .ok r) (f : Bytes) :
+    Extracted.age_ParseIdentities P f = .ok (match KeyFile.parseIdentities (GoTie.lineKey P) 65536 16777216 f with
+      | .ok ks => (ks, none)
+      | .error e => ([], GoTie.idFileErr e)) :=
+  GoTie.parseIdentities_tie P hP f
+
+theorem parseRecipients_tie {κ : Type} (P : Bytes → Go.M (κ × Option Go.Err))
+    (hP : ∀ l, ∃ r, P l = .ok r) (f : Bytes) :
+    Extracted.age_ParseRecipients P f = .ok (match KeyFile.parseRecipients (GoTie.lineKey P) 65536 16777216 f with
+      | .ok ks => (ks, none)
+      | .error e => ([], GoTie.rcFileErr e)) :=
+  GoTie.parseRecipients_tie P hP f
+
+/-- the model parameters used above are the ones the driver runs the model with -/
+theorem model_parameters : Exec.KeyFile.limit = 16777216 ∧ Exec.KeyFile.maxTok = 65536 ∧ Go.maxScanTokenSize = 65536 := by decide
 
 end Tie.C18
 end AgeModel
